@@ -2,7 +2,7 @@
 # Build imbsim against the library build for /repo's current tree. Prints the binary path.
 set -euo pipefail
 V=${VERIF_DIR:-/verif}
-LIBDIR=$("$V/tools/build_cache.sh")
+LIBDIR=${IMB_LIBDIR:-$("$V/tools/build_cache.sh")}
 CACHE=$V/.cache
 shash=$( (cd "$V" && cat sim/*.cc sim/*.h sim/*.S ref/*.cc ref/*.h 2>/dev/null; sha256sum "$LIBDIR/intel-ipsec-mb.h") | sha256sum | cut -c1-16)
 OBJ=$CACHE/simobj-$shash
@@ -19,7 +19,7 @@ if [ ! -x "$BIN/imbsim" ]; then
   [ -f "$OBJ/tramp.o" ] || gcc -c "$V/sim/tramp.S" -o "$OBJ/tramp.o"
   fail=0; for p in "${pids[@]:-}"; do [ -n "$p" ] && { wait "$p" || fail=1; }; done
   [ $fail = 0 ] || { echo "build_sim: compile failed" >&2; exit 2; }
-  g++ -o "$BIN/imbsim.tmp" "$OBJ"/*.o "$LIBDIR/libIPSec_MB.a" -Wl,--wrap=mbcpuid -lcrypto -ldl -lpthread -Wl,-z,noexecstack
+  g++ -no-pie -o "$BIN/imbsim.tmp" "$OBJ"/*.o "$LIBDIR/libIPSec_MB.a" -Wl,--wrap=mbcpuid -lcrypto -ldl -lpthread -Wl,-z,noexecstack
   mv "$BIN/imbsim.tmp" "$BIN/imbsim"
   # prune old sim builds (keep 4 newest of each)
   ls -dt "$CACHE"/simobj-* 2>/dev/null | tail -n +5 | xargs -r rm -rf
